@@ -89,6 +89,8 @@ def gen_instance(rng, profile="mixed", nj=None, nm=None):
         return gen_multibuf(rng)
     if profile == "dep":
         return gen_dep(rng)
+    if profile == "buried":
+        return gen_buried(rng)
     if profile == "stale":
         return gen_stale(rng)
     if profile == "outstart":
@@ -313,6 +315,29 @@ def gen_stale(rng):
     d = {"title": "InstanceConfig", "instance_config": ic}
     feats = {"profile": "stale", "nj": nj, "nm": 2, "routes": routes, "travel": "const", "nagv": nagv,
              "start_time": 0, "roomy": True, "buffer_mode": "global", "force_early": True}
+    return d, feats
+
+
+def gen_buried(rng):
+    """Built for the release/teleport-dispatch race (finding F-C11-teleport-dispatch-buried): zero travel times (every dispatch
+    is applied by the simulator itself after a time jump), LIFO post-buffers that hold all jobs, zero- and one-unit operations,
+    a machine outage after every operation; run with early transport DISABLED (feats['force_no_early'])."""
+    nj = rng.randint(3, 5)
+    routes = []
+    for _ in range(nj):
+        a = rng.randint(0, 1)
+        routes.append([(a, rng.randint(0, 1)), (1 - a, rng.randint(0, 1))])
+    names = ["m-0", "m-1", "in-buf", "out-buf"]
+    nagv = rng.choice([1, 1, 2])
+    ic = {"description": "buried", "instance": {"description": "gen", "specification": job_spec_text(routes)},
+          "logistics": {"type": "agv", "amount": nagv, "specification": matrix_text(names, [[0] * 4 for _ in range(4)])},
+          "machines": {"prebuffer": [{"type": "flex_buffer", "capacity": nj}],
+                       "postbuffer": [{"type": rng.choice(["lifo", "lifo", "fifo"]), "capacity": nj}]},
+          "outages": [{"component": rng.choice(["m", "m-0", "m-1"]), "type": "maintenance", "duration": rng.randint(1, 3),
+                       "frequency": 1000}]}
+    d = {"title": "InstanceConfig", "instance_config": ic}
+    feats = {"profile": "buried", "nj": nj, "nm": 2, "routes": routes, "travel": "zero", "nagv": nagv,
+             "start_time": 0, "roomy": True, "buffer_mode": "global", "force_no_early": True, "noutages": 1}
     return d, feats
 
 
